@@ -23,7 +23,32 @@ def run(F, rep):
         fn = F.fn("<%s as %s" % (SORTED, m))
         calls = [callee_name(t) or "" for _, t in fn.body.calls()]
         ok = want in calls and calls.count("<%s>::value" % INTERNED) == 2 and \
-            not any(c.startswith("<%s as core::cmp" % INTERNED) for c in calls)
+            not any(c.startswith("<%s as core::cmp::Ord" % INTERNED) or c.startswith("<%s as core::cmp::PartialOrd" % INTERNED)
+                    for c in calls)
+        if ok and any(c.startswith("<%s as core::cmp::PartialEq" % INTERNED) for c in calls):
+            # an identity shortcut (`if self.0 == other.0 { return Equal }`) is sound — the same interned string has the same
+            # text — as long as "identical" can only answer Equal or fall through to the text comparison
+            from . import kwalk
+
+            def hook(w, bb, t, env, args):
+                c = callee_name(t) or ""
+                if c.startswith("<%s as core::cmp::PartialEq" % INTERNED):
+                    return 1 if c.endswith("::eq") else 0
+                return None
+
+            def on_term(w, bb, t, env):
+                if t["k"] == "call" and (callee_name(t) or "") == want:
+                    return ("text-cmp",)
+                return None
+            w = kwalk.Walker(F, fn.body, call_result=hook, on_term=on_term, want_ret=True)
+            for kind, marks, ret in w.run(0, {}):
+                if kind != "return":
+                    continue
+                top = dict(ret or ()).get("0")
+                is_equal = top == 0 or (isinstance(top, tuple) and top[0] == "var" and top[2] == "Equal")
+                if not (("text-cmp",) in marks or is_equal):
+                    ok = False
+            rep.states += w.states_explored
         n += 1
         rep.ob(R, "SortedInternedStr|cmp", ok, {"calls": calls})
         if not ok:
